@@ -85,6 +85,18 @@ def serve_one_bytes(server, data: bytes):
     return t.written(), t.unread(), exc
 
 
+def serve_bytes(server, data: bytes):
+    """Run the real RpcServer.serve (the whole connection loop) on a byte buffer holding several requests.
+    Returns (response bytes, unread input bytes, exception|None); the loop ends at end of input."""
+    t = ByteTransport(data)
+    exc = None
+    try:
+        server.serve(t)
+    except BaseException as e:  # noqa: BLE001
+        exc = e
+    return t.written(), t.unread(), exc
+
+
 def read_streams(data: bytes) -> list[dict]:
     """Split a byte string into consecutive IPC streams: [{schema, batches:[(batch, md dict)], complete}]"""
     out = []
